@@ -11,7 +11,7 @@ import (
 
 func init() {
 	register(&Rule{Name: "LIMIT-SRC", Floor: 4,
-		Doc: "every way request bytes enter memory in request-reachable transport code is bounded by the configured receive limit before use (bounded ReadFull, limit passed to ReadNext, accumulate-and-compare loops, bounded or checked decompression / whole-message reads)",
+		Doc: "every way request bytes enter memory in request-reachable transport code is bounded by the configured receive limit before use (bounded ReadFull, limit passed to ReadNext, accumulate-and-compare loops, bounded or checked decompression / whole-message reads); an io.LimitReader in front of a length check lets at least limit+1 bytes through",
 		Run: ruleLimitSrc})
 	register(&Rule{Name: "LIMIT-STRICT", Floor: 3,
 		Doc: "at every limit guard whose refused edge returns an error, a message is refused iff size > limit (>= would refuse a message exactly at the limit)",
